@@ -28,7 +28,7 @@ type pubEncRes struct {
 	pan string
 }
 
-func kEncPub(alg string, key jwk.Key, pt, label []byte) (r pubEncRes) {
+func kEncPub1(alg string, key jwk.Key, pt, label []byte) (r pubEncRes) {
 	k2, kb := privKey(key)
 	p, l := clone(pt), clone(label)
 	defer func() {
@@ -41,7 +41,7 @@ func kEncPub(alg string, key jwk.Key, pt, label []byte) (r pubEncRes) {
 	return r
 }
 
-func kDecPriv(alg string, key jwk.Key, ct, label []byte) (r decRes) {
+func kDecPriv1(alg string, key jwk.Key, ct, label []byte) (r decRes) {
 	k2, kb := privKey(key)
 	c, l := clone(ct), clone(label)
 	defer func() {
@@ -60,7 +60,7 @@ type signRes struct {
 	pan string
 }
 
-func kSign(alg string, key jwk.Key, digest []byte) (r signRes) {
+func kSign1(alg string, key jwk.Key, digest []byte) (r signRes) {
 	k2, kb := privKey(key)
 	d := clone(digest)
 	defer func() {
@@ -89,6 +89,39 @@ func kVerify(alg string, key jwk.Key, digest, sig []byte) (r verifyRes) {
 	}()
 	r.ok, r.err = kc.VerifyPublicKey(d, s, alg, k2)
 	settle("VerifyPublicKey", alg, nil, [][]byte{d, s, kb}, nil)
+	return r
+}
+
+func kEncPub(alg string, key jwk.Key, pt, label []byte) pubEncRes {
+	r := kEncPub1(alg, key, pt, label)
+	if hasOut(r.pan, r.ct) {
+		inTwin = true
+		r2 := kEncPub1(alg, key, pt, label)
+		inTwin = false
+		twinCheck("EncryptPublicKey", alg, rpm("algorithm", alg, "plaintext", pt, "label", label), []string{"ciphertext"}, [][]byte{r.ct}, [][]byte{r2.ct})
+	}
+	return r
+}
+
+func kDecPriv(alg string, key jwk.Key, ct, label []byte) decRes {
+	r := kDecPriv1(alg, key, ct, label)
+	if hasOut(r.pan, r.pt) {
+		inTwin = true
+		r2 := kDecPriv1(alg, key, ct, label)
+		inTwin = false
+		twinCheck("DecryptPrivateKey", alg, rpm("algorithm", alg, "ciphertext", ct, "label", label), []string{"plaintext"}, [][]byte{r.pt}, [][]byte{r2.pt})
+	}
+	return r
+}
+
+func kSign(alg string, key jwk.Key, digest []byte) signRes {
+	r := kSign1(alg, key, digest)
+	if hasOut(r.pan, r.sig) {
+		inTwin = true
+		r2 := kSign1(alg, key, digest)
+		inTwin = false
+		twinCheck("SignPrivateKey", alg, rpm("algorithm", alg, "digest", digest), []string{"signature"}, [][]byte{r.sig}, [][]byte{r2.sig})
+	}
 	return r
 }
 
